@@ -18,7 +18,10 @@ before the device lock is taken in process_write_batch; thread entries never blo
 TtlSweeper::stop joins only when the caller is not the sweeper thread; FeoxStore::drop stops the sweeper, flags shutdown,
 joins workers and only then shuts the device down. Not decided: progress of retry loops (fairness/timing).
 """
-DECIDED = ['the out-of-space branch asks to be re-run only if sectors were released since a snapshot taken at entry', "lock-order + wait graph acyclic, no self edge", "no self-join", "shutdown order", "workers poll with timeouts"]
+DECIDED = ['the out-of-space branch asks to be re-run only if sectors were released since a snapshot taken at entry', "lock-order + wait graph acyclic, no self edge", "no self-join", "shutdown order", "workers poll with timeouts",
+           "the final flush loop and the sweeper's loops are structurally bounded; the sweeper polls the flag stop() raises and never pins the store",
+           'the reader count of an extent always comes back down (no phantom reader)',
+           'every prepared write of a failed batch is requeued, so no retirement waits for a successor that was dropped']
 NOT_DECIDED = ["progress of retry loops and of force_flush's outer loop", "behaviour when a reader never leaves"]
 ASSUMPTIONS = ["destructors reached only through the last Arc<FeoxStore> dropped on the sweeper thread are not followed "
                "(made safe by the thread-id test in TtlSweeper::stop, checked as C18.selfjoin)",
